@@ -59,15 +59,10 @@ def binding(run):
         raise Infra("selftest: no suitable line in the base trace")
 
     def corrupt_balance(lines):
-        i = first(lines, lambda l: l["ev"]["fn"] == "ESDTTransfer" and l["ev"]["res"] == "ok" and l["ev"]["caller"] != "esdtsc")
+        i = first(lines, lambda l: l["ev"]["fn"] == "ESDTTransfer" and l["ev"]["res"] == "ok" and l["ev"]["caller"] != "esdtsc"
+                  and l["w"]["acct"][l["ev"]["caller"]]["esdt"])
         acct = lines[i]["w"]["acct"][lines[i]["ev"]["caller"]]["esdt"]
-        k = sorted(acct)[0] if acct else None
-        if k is None:
-            rc = lines[i]["w"]["acct"][lines[i]["ev"]["rcpt"]]["esdt"]
-            k = sorted(rc)[0]
-            rc[k]["val"] += 1
-        else:
-            acct[k]["val"] += 1
+        acct[sorted(acct)[0]]["val"] += 1
         return i + 1
 
     def flip_ok(lines):
